@@ -337,7 +337,7 @@ pub fn numeric_derivations() -> Vec<Vec<u8>> {
 }
 
 pub fn channel_derivations() -> Vec<Vec<u8>> {
-    let specs = ["1", "12", "-3", "+4", "1!2", "10!20", "-1!-2", "1!2!3", "7!8!9", "123456!7"];
+    let specs = ["1", "12", "-3", "+4", "1!2", "10!20", "-1!-2", "1!2!3", "7!8!9", "123456!7", "-9223372036854775808", "9223372036854775807!-9223372036854775808"];
     let paths = ["'a'", "\"b\"", "'a,b:c!d'", "'it''s'", "\"q\"\"q\"", "''"];
     let mut entries: Vec<String> = specs.iter().map(|s| s.to_string()).collect();
     for s in specs {
